@@ -289,7 +289,7 @@ func (d *kvDriver[K]) bigOrderBTree() {
 // runFamily picks one workload family.
 func (d *kvDriver[K]) runFamily(large int) {
 	r := d.c.R
-	if d.m.A.Order >= 16 && r.Chance(1, 3) {
+	if d.m.A.Order >= 16 && d.m.A.Order <= 128 && r.Chance(1, 3) {
 		d.bigOrderBTree()
 		d.m.Final()
 		return
